@@ -1,5 +1,6 @@
 import WrglModel.Driver.Util
 import WrglModel.Model.Merge
+import WrglModel.Model.MergeCols
 import WrglModel.Spec.Merge
 open Lean
 namespace Wrgl.Drv
@@ -23,9 +24,48 @@ def handleC05 (op : String) (input impl : Json) : Except String Json := do
     let iRows ← asRows (fldD v "rows" (Json.arr #[]))
     let iConf ← (← asArr (fldD v "conflicts" (Json.arr #[]))).mapM fun c => do
       return (← asRow (← fld c "key"), ← asRow (← fld c "row"), ← asNatList (← fld c "cols"))
-    if !sameCols then
-      -- column-changing branches: only crash-freedom is decided here (see DESIGN.md, C05 partial)
-      return reply Json.null true []
+    let bcolsJ := (fldD input "branchColumns" (Json.arr #[])).getArr?.toOption.getD #[]
+    let bcols ← bcolsJ.toList.mapM asRow
+    let colsDiffer := bcols.any (fun c => c != columns)
+    if !sameCols || colsDiffer then
+      -- column-changing branches: the per-key resolution (by column NAME) is compared with the
+      -- model `resolveRecCols`; the layout of untouched rows in the final table is the known
+      -- finding C05-untouched-rows-base-layout and is not judged here
+      let pkNames ← asRow (fldD input "pkNames" (Json.arr #[]))
+      if pkNames.isEmpty || bcols.length != branches.length then return reply Json.null true []
+      let cdNames ← asRow (fldD v "cdNames" (Json.arr #[]))
+      let keyIn := fun (cols : Row) (r : Row) => pkNames.map (fun n => (((cols.zip r).find? (fun p => p.1 == n)).map (·.2)).getD [])
+      let tables : List (Row × List Row) := (columns, base) :: bcols.zip branches
+      let keys := (tables.flatMap (fun (c, rows) => rows.map (keyIn c))).eraseDups
+      let names := mergedNames columns bcols
+      let byName := fun (ns : Row) (r : Row) => (ns.zip r).mergeSort (fun a b => bytesCmp a.1 b.1 != .gt)
+      let res := keys.map (fun k =>
+        let ob := base.find? (fun r => keyIn columns r == k)
+        let os := (bcols.zip branches).map (fun (c, rows) => rows.find? (fun r => keyIn c r == k))
+        -- keys present and identical in the base and all branches never reach the resolver
+        let skip := ob.isSome && os.all (fun o => o == ob)
+        (k, if skip then Resolution.removed else resolveRecCols columns bcols ob os))
+      let mConf := (res.filterMap (fun (k, r) => match r with
+        | .conflict row cols => some (k, byName names row, (cols.filterMap (fun i => names[i]?)).mergeSort (fun a b => bytesCmp a b != .gt))
+        | _ => none)).mergeSort (fun a b => keyCmp a.1 b.1 != .gt)
+      let iConfN := (iConf.map (fun (k, row, cols) =>
+        (k, byName cdNames row, (cols.filterMap (fun i => cdNames[i]?)).mergeSort (fun a b => bytesCmp a b != .gt)))).mergeSort (fun a b => keyCmp a.1 b.1 != .gt)
+      -- resolved rows must be in the final table, cell for cell under their column names
+      let resolvedOk := res.all (fun (k, r) => match r with
+        | .resolved row => iRows.any (fun ir => keyIn iCols ir == k && byName iCols ir == byName names row)
+        | _ => true)
+      let sortB := fun (l : Row) => l.mergeSort (fun a b => bytesCmp a b != .gt)
+      let violC : List String :=
+        (if mConf.map (·.1) == iConfN.map (·.1) then [] else ["conflicts-reported-exactly"]) ++
+        (if mConf == iConfN then [] else ["conflict-content-by-column-name"]) ++
+        -- with the key away from the front the collector sorts and de-duplicates merged-layout rows on the
+        -- base's key position (known finding C05-untouched-rows-base-layout): same clause name as there
+        (if resolvedOk then [] else [if isPrefixPk pk then "resolved-rows-kept-under-their-column-names"
+                                     else "non-conflicting-changes-kept-and-untouched-rows-unchanged"]) ++
+        (if sortB iCols == sortB names && sortB cdNames == sortB names then [] else ["columns-under-their-own-names"])
+      let mj := Json.mkObj [("conflicts", Json.arr (mConf.map (fun c => Json.mkObj [("key", jRow c.1),
+        ("cols", jRow c.2.2)])).toArray)]
+      return reply mj (mConf == iConfN) violC
     let sortK := refSort pk
     let spec := mergeSpec sortK nCols pk base branches
     -- expected rows in the merged layout (primary key hoisted to the front)
